@@ -622,3 +622,118 @@ Proof.
   cbn [bindr sort_tbl count_tbl t_cols t_chunks]. unfold eval_query. cbn [q_pat q_proj q_order q_offset q_limit snd slice eval_pat map render_rcell].
   rewrite (Permutation_length P), map_length. reflexivity.
 Qed.
+
+(** * SELECT with a list of variables over a basic graph pattern *)
+
+Lemma col_index_from_spec : forall cols i v j, col_index_from i v cols = Some j ->
+  (i <= j)%nat /\ nth_error cols (j - i) = Some v.
+Proof.
+  induction cols as [|c r IH]; intros i v j H; cbn [col_index_from] in H; [discriminate|].
+  destruct (col_index_from (S i) v r) as [j'|] eqn:E.
+  - injection H as <-. destruct (IH _ _ _ E) as [H1 H2]. split; [lia|].
+    replace (j' - i)%nat with (S (j' - S i)) by lia. exact H2.
+  - destruct (Nat.eqb c v) eqn:Ec; [|discriminate]. injection H as <-. apply Nat.eqb_eq in Ec. subst c.
+    split; [lia|]. rewrite Nat.sub_diag. reflexivity.
+Qed.
+
+Lemma col_index_from_exists : forall cols i v, In v cols -> exists j, col_index_from i v cols = Some j.
+Proof.
+  induction cols as [|c r IH]; intros i v H; [contradiction|]. cbn [col_index_from].
+  destruct (col_index_from (S i) v r) as [j'|] eqn:E; [eexists; reflexivity|].
+  destruct H as [->|H]; [rewrite Nat.eqb_refl; eexists; reflexivity|].
+  destruct (IH (S i) v H) as [j Ej]. congruence.
+Qed.
+
+Lemma resolve_vars_spec : forall cols vs, (forall v, In v vs -> In v cols) ->
+  exists idx, resolve_vars cols vs = Some idx /\ Forall2 (fun v i => nth_error cols i = Some v) vs idx.
+Proof.
+  intros cols vs. induction vs as [|v vs IH]; intro H; [exists []; split; [reflexivity|constructor]|].
+  destruct IH as [idx [E F]]; [intros w Hw; apply H; right; exact Hw|].
+  destruct (col_index_from_exists cols 0 v (H v (or_introl eq_refl))) as [j Ej].
+  exists (j :: idx). cbn [resolve_vars]. unfold col_index. rewrite Ej, E. split; [reflexivity|].
+  constructor; [|exact F]. destruct (col_index_from_spec _ _ _ _ Ej) as [_ H2]. rewrite Nat.sub_0_r in H2. exact H2.
+Qed.
+
+Lemma pick_strict_pick : forall idx (r : row), (forall i, In i idx -> (i < length r)%nat) -> pick_strict idx r = Some (pick idx r).
+Proof.
+  induction idx as [|i idx IH]; intros r H; [reflexivity|]. cbn [pick_strict]. unfold pick in *. cbn [flat_map].
+  destruct (nth_error r i) as [c|] eqn:E.
+  - rewrite IH by (intros j Hj; apply H; right; exact Hj). reflexivity.
+  - exfalso. apply nth_error_None in E. specialize (H i (or_introl eq_refl)). lia.
+Qed.
+
+Lemma pick_sol_row : forall cols vs idx m, Forall2 (fun v i => nth_error cols i = Some v) vs idx ->
+  pick idx (sol_row cols m) = sol_row vs m.
+Proof.
+  intros cols vs idx m F. induction F as [|v i vs idx H F IH]; [reflexivity|].
+  unfold pick in *. cbn [flat_map]. rewrite nth_error_sol_row, H. cbn [option_map app]. unfold sol_row at 2. cbn [map].
+  f_equal. exact IH.
+Qed.
+
+Lemma map_opt_all : forall {A B} (f : A -> option B) (g : A -> B) l,
+  (forall x, In x l -> f x = Some (g x)) -> map_opt f l = Some (map g l).
+Proof.
+  intros A B f g l H. induction l as [|x l IH]; [reflexivity|]. cbn [map_opt map].
+  rewrite (H x (or_introl eq_refl)), IH; [reflexivity|]. intros y Hy. apply H. right. exact Hy.
+Qed.
+
+Lemma project_tinv : forall n G T A vs, tinv n G T A -> (forall v, In v vs -> In v (t_cols T)) ->
+  exists T', project_tbl vs T = Done T' /\ t_cols T' = vs /\
+             Permutation (all_live (t_chunks T')) (map (sol_row vs) A).
+Proof.
+  intros n G T A vs I Hvs. destruct (resolve_vars_spec (t_cols T) vs Hvs) as [idx [E F]].
+  assert (Hidx : forall i, In i idx -> (i < length (t_cols T))%nat).
+  { clear E. induction F as [|v i vs0 idx0 H F IH]; intros j Hj; [contradiction|]. destruct Hj as [<-|Hj].
+    - apply nth_error_Some. congruence.
+    - apply IH; [intros w Hw; apply Hvs; right; exact Hw|exact Hj]. }
+  assert (Hrow : forall c l, In c (t_chunks T) -> In l (live c) -> exists m, In m A /\ l = sol_row (t_cols T) m /\ good n G (t_cols T) m).
+  { intros c l Hc Hl. apply (tinv_rows _ _ _ _ I). unfold all_live. apply in_flat_map. exists c. split; assumption. }
+  unfold project_tbl. rewrite E.
+  rewrite (map_opt_all _ (fun c => map (pick idx) (live c))).
+  2:{ intros c Hc. apply map_opt_all. intros l Hl. apply pick_strict_pick. intros i Hi.
+      destruct (Hrow c l Hc Hl) as [m [_ [-> _]]]. rewrite sol_row_length. apply Hidx. exact Hi. }
+  eexists. split; [reflexivity|]. cbn [t_cols t_chunks]. split; [reflexivity|].
+  assert (AL : all_live (map (fun rs => fresh (requirk_rows [] rs)) (map (fun c => map (pick idx) (live c)) (t_chunks T)))
+             = map (pick idx) (all_live (t_chunks T))).
+  { induction (t_chunks T) as [|c cs IH]; [reflexivity|]. cbn [map].
+    assert (E1 : all_live (c :: cs) = live c ++ all_live cs) by reflexivity. rewrite E1, map_app.
+    assert (E2 : forall x xs, all_live (x :: xs) = live x ++ all_live xs) by reflexivity. rewrite E2. f_equal.
+    - rewrite live_fresh. apply requirk_rows_id. intros r Hr. apply in_map_iff in Hr. destruct Hr as [l [<- Hl]].
+      destruct (Hrow c l (or_introl eq_refl) Hl) as [m [_ [-> Gm]]]. intro Hc. apply pick_sub in Hc.
+      eapply sol_row_no_null; eassumption.
+    - apply IH. intros c' l Hc'. apply Hrow. right. exact Hc'. }
+  rewrite AL. destruct I as [_ [P _]]. eapply Permutation_trans; [apply Permutation_map; exact P|].
+  rewrite map_map. assert (Em : map (fun m => pick idx (sol_row (t_cols T) m)) A = map (sol_row vs) A).
+  { apply map_ext. intro m. apply (pick_sol_row _ _ _ _ F). }
+  rewrite Em. apply Permutation_refl.
+Qed.
+
+Lemma select_vars_bgp_spec_l : forall c ops n tps vs cols,
+  let st := reach c ops in
+  bgp_plain n tps -> render_injective_on (graph_terms (triples st)) ->
+  pat_cols (PBgp tps) = Some cols -> vs <> [] -> (forall v, In v vs -> In v cols) ->
+  exists rows,
+    run_select st (Query false (ProjVars vs) (PBgp tps) [] None None) = Done (vs, rows) /\
+    Permutation rows
+      (map (map render_rcell) (snd (eval_query n (triples st) (Query false (ProjVars vs) (PBgp tps) [] None None)))).
+Proof.
+  intros c ops n tps vs cols st Hp Hinj Hc Hne Hvs.
+  destruct Hp as [Hne' Hp]. destruct tps as [|tp tps]; [congruence|].
+  assert (Hinv : inv st) by apply inv_reach.
+  destruct (Hp tp (or_introl eq_refl)) as [Hn [Hk Hv]].
+  pose proof (scan_tinv n st tp Hinv Hn Hv Hk) as HS.
+  destruct (plan_bgp_tinv n st tps (scan st tp) (eval_tp n (triples st) tp) Hinv Hinj) as [T [E [C I]]];
+    [intros tp' Hi; apply Hp; right; exact Hi|exact HS|].
+  assert (EC : t_cols T = cols). { cbn [pat_cols bgp_cols] in Hc. unfold scan in C. cbn [t_cols] in C. congruence. }
+  destruct (project_tinv n _ T _ vs I) as [T' [EP [CP PP]]]; [rewrite EC; exact Hvs|].
+  exists (all_live (t_chunks T')). unfold run_select, plan_ok. cbn [q_pat q_proj q_order q_offset q_limit].
+  rewrite Hc. destruct vs as [|v0 vs0]; [congruence|].
+  destruct (resolve_vars_spec cols (v0 :: vs0) Hvs) as [idx [ER _]]. rewrite ER. cbn [andb negb].
+  cbn [plan_pat plan_bgp]. rewrite E. cbn [bindr sort_tbl]. rewrite EP. cbn [bindr]. rewrite CP. split; [reflexivity|].
+  unfold eval_query. cbn [q_pat q_proj q_order q_offset q_limit q_distinct snd eval_pat order_by slice].
+  rewrite !map_map. eapply Permutation_trans; [exact PP|].
+  rewrite eval_bgp_fold. cbn [map fold_join fold_left]. rewrite join_unit_l by apply eval_tp_wf.
+  assert (Em : forall l, map (sol_row (v0 :: vs0)) l = map (fun m => map render_rcell (map rcell_of (project (v0 :: vs0) m))) l).
+  { intro l. apply map_ext. intro m. symmetry. apply render_project. }
+  rewrite Em. apply Permutation_refl.
+Qed.
